@@ -193,7 +193,8 @@ Definition analyze_complexity_medium_threshold (file : option Z) : Z :=
   if svc_cx_merge_MediumThreshold_given req then req
   else file_int cfg_key_complexity_medium_threshold_is_pointer cfg_default_ComplexityMediumThreshold file.
 
-(* [cbo] low_threshold / medium_threshold: request = domain defaults, merge `> 0` *)
+(* [cbo] low_threshold / medium_threshold: request = domain defaults, merge `> 0 && != default` (before fix: f36bff9
+   the merge was `> 0`, which counted the defaults carried by the request as given: F6) *)
 Definition analyze_cbo_low_threshold (file : option Z) : Z :=
   let req := analyze_req_cbo_LowThreshold in
   if svc_cbo_merge_LowThreshold_given req then req
